@@ -483,28 +483,32 @@ impl Observer {
                         if s.notar.is_none() {
                             kernel::violation("C05", "skip-fallback-without-notar", format!("correct node {i} cast skip-fallback in slot {slot} without having notarized a block there"));
                         }
-                        // necessary: skip + notar stake on the wire (all blocks but the top one) >= 40 %
-                        let mut skip = 0u64;
-                        let mut notar: BTreeMap<BlockHash, u64> = BTreeMap::new();
-                        let mut seen: BTreeSet<(usize, &str)> = BTreeSet::new();
+                        // necessary: skip + notar stake (all blocks but the top one) >= 40 %.
+                        // Sound upper bound of what the node can have counted: every validator that sent
+                        // any skip or notar vote for the slot counts once (a Byzantine validator's
+                        // conflicting votes may have reached this node in any order), minus the largest
+                        // notar stake that *correct* validators alone gave one block.
+                        let mut voters: BTreeSet<usize> = BTreeSet::new();
+                        let mut correct_notar: BTreeMap<BlockHash, BTreeSet<usize>> = BTreeMap::new();
                         for (seq, v, x) in &all {
                             if *seq > sv.seq || x.slot != slot {
                                 continue;
                             }
-                            if x.kind == "skip" && seen.insert((*v, "s")) {
-                                skip += stakes[*v];
+                            if x.kind == "skip" || x.kind == "notar" {
+                                voters.insert(*v);
                             }
-                            if x.kind == "notar" && seen.insert((*v, "n")) {
-                                *notar.entry(x.hash.clone().unwrap()).or_insert(0) += stakes[*v];
+                            if x.kind == "notar" && self.correct[*v] {
+                                correct_notar.entry(x.hash.clone().unwrap()).or_default().insert(*v);
                             }
                         }
-                        let top = notar.values().max().copied().unwrap_or(0);
-                        let sum: u64 = notar.values().sum();
-                        if (skip + sum - top) * 5 < total * 2 {
+                        let voted: u64 = voters.iter().map(|v| stakes[*v]).sum();
+                        let top: u64 = correct_notar.values().map(|s| s.iter().map(|v| stakes[*v]).sum::<u64>()).max().unwrap_or(0);
+                        let bound = voted.saturating_sub(top);
+                        if bound * 5 < total * 2 {
                             kernel::violation(
                                 "C05",
                                 "skip-fallback-before-safe-to-skip",
-                                format!("correct node {i} cast skip-fallback in slot {slot} when at most {} of {total} stake (skip + non-top notar) had been voted anywhere", skip + sum - top),
+                                format!("correct node {i} cast skip-fallback in slot {slot} when at most {bound} of {total} stake (skip + non-top notar) can have been counted anywhere"),
                             );
                         }
                         kernel::probe("c05_skip_fallback_votes_checked");
